@@ -10,7 +10,7 @@
 From Coq Require Import Sorted QArith.
 From CKT Require Import Common.Base Common.Circ Model.Observables Model.Grouping Model.Measurement
                         Proofs.GroupingP Proofs.MeasurementP
-                        Model.GroupingGreedy Proofs.GroupingGreedyP Proofs.BornTwoQubitP.
+                        Model.GroupingGreedy Proofs.GroupingGreedyP Proofs.BornTwoQubitP Proofs.C11ComposeP.
 Close Scope Q_scope.
 
 (* ---------------------------------------------------------------------------------------------
@@ -102,14 +102,24 @@ Theorem c11_indices_masks : forall g members idx masks,
   length masks = length members /\
   forall j m, nth_error members j = Some m ->
     pphase m = 0 /\
+    mask_of (plets m) idx = Some (nth j masks 0%N) /\
     forall i, N.testbit (nth j masks 0%N) (N.of_nat i) = true <->
               i < length idx /\ nth (nth i idx 0) (plets m) 0 <> 0.
 Proof.
   intros g members idx masks H. destruct (cog_post_init_spec _ _ _ _ H) as (A & B & C & D & E).
   split; [exact A|]. split; [exact B|]. split; [exact C|]. split; [exact D|].
-  intros j m Hm. destruct (E j m Hm) as [P [v [Hv [_ S]]]]. split; [exact P|].
-  rewrite (nth_error_nth _ _ _ Hv). exact S.
+  intros j m Hm. destruct (E j m Hm) as [P [v [Hv [Mv S]]]]. split; [exact P|].
+  rewrite (nth_error_nth _ _ _ Hv). split; [exact Mv|exact S].
 Qed.
+
+(* together with c11_compatible: for a group built by the collection, the bits of mask j select exactly the support of
+   member j (support inside pauli_indices) *)
+Theorem c11_mask_is_support : forall g members idx masks,
+  cog_post_init g members = Ok (idx, masks) ->
+  forall j m, nth_error members j = Some m -> member_of (plets g) (plets m) ->
+    map (fun i => nth i idx 0) (filter (fun i => N.testbit (nth j masks 0%N) (N.of_nat i)) (seq 0 (length idx)))
+    = support (plets m).
+Proof. exact mask_selects_support. Qed.
 
 (* a member with a phase is refused *)
 Theorem c11_cog_refuses_phase : forall g members,
@@ -203,7 +213,8 @@ Theorem c11_measure_ok : forall gh gsx qc g idx locs bits,
   = Ok (mkMC (mnq qc) (mnc qc) (mcregs qc) (mdata qc ++ measurement_suffix gh gsx g idx ls bits)).
 Proof. exact append_circuit_ok. Qed.
 
-(* the three refusal classes *)
+(* the refusal classes in the order of the code: qubit count (identity map), qubit count (qubit_locations),
+   missing register, register size *)
 Theorem c11_meas_refuses : forall gh gsx qc g idx,
   (mnq qc <> length g -> append_measurement_circuit gh gsx qc g idx None = Refused) /\
   (forall locs, length locs <> length g -> append_measurement_circuit gh gsx qc g idx (Some locs) = Refused) /\
@@ -297,42 +308,103 @@ Section ExpectationCircuit.
   (* the value decoded with the recorded bitmask is the expectation value of the member placed on the circuit's
      qubits through qubit_locations *)
   Theorem c11_expectation_circuit : forall m mask,
+    (forall q, In q locs -> (q < nqc)%nat) ->       (* every location is a circuit qubit: embed_letters loses nothing *)
     member_of g m -> mask_of m (nonid_positions g) = Some mask ->
     expect law (decode mask) == ev_c (embed_letters nqc locs m).
   Proof.
+    intros m mask _.
     exact (expectation_circuit sem gh gsx ev_c nqc g locs bits law SemH SemSX Letters LocsInjective LocsLength
-             BitsDistinct BitsLength BornCircuit).
+             BitsDistinct BitsLength BornCircuit m mask).
   Qed.
 End ExpectationCircuit.
 
-(* The hypothesis DISCHARGED on two qubits (bound in the statement): for EVERY non-zero two-qubit state vector with
+(* ABSTRACT ROTATIONS: law_st2 applies `rotation_of (letter)` to each qubit of the full two-qubit state (identity
+   qubit_locations, pure state, no other clbits); it is NOT computed from the instruction list.  The link from the
+   appended instructions to rotation_of is c11_suffix_semantics; the circuit-level discharge is
+   c11_born_circuit_two_qubits below.
+   The hypothesis DISCHARGED on two qubits (bound in the statement): for EVERY non-zero two-qubit state vector with
    Gaussian-integer amplitudes (by scaling: Gaussian-rational amplitudes) and EVERY general observable on two qubits
    (all 16 letter combinations, incl. identity letters and the dummy), the outcome law computed from the state vector
    after the appended rotations (H for X, SX for Y) satisfies `born` with ev = <psi|.|psi>/<psi|psi>.
    Symbolic in the 8 integer coordinates of the state (polynomial identities), not an evaluation on samples. *)
-Theorem c11_born_two_qubits : forall (s : st2) (g : list nat),
+Theorem c11_born_two_qubits_abstract_rotations : forall (s : st2) (g : list nat),
   st2_nonzero s -> length g = 2 -> valid_letters g -> born (ev_st2 s) g (law_st2 s g).
 Proof. exact born_two_qubits. Qed.
 
 (* hence on two qubits the decoded value IS the expectation value of every member: no physical hypothesis left *)
-Theorem c11_expectation_two_qubits : forall (s : st2) (g : list nat),
+Theorem c11_expectation_two_qubits_abstract_rotations : forall (s : st2) (g : list nat),
   st2_nonzero s -> length g = 2 -> valid_letters g ->
   forall m mask, member_of g m -> mask_of m (nonid_positions g) = Some mask ->
     Qeq (expect (law_st2 s g) (decode mask)) (ev_st2 s m).
 Proof. exact expectation_two_qubits. Qed.
 
 (* the law used there is normalised *)
-Theorem c11_law_two_qubits_normalised : forall (s : st2) (g : list nat),
+Theorem c11_law_two_qubits_abstract_rotations_normalised : forall (s : st2) (g : list nat),
   st2_nonzero s -> length g = 2 -> valid_letters g -> Qeq (expect (law_st2 s g) (fun _ => 1%Z)) 1%Q.
 Proof. exact law_st2_total. Qed.
 
-(* the forced dummy measurement: an all-identity group measures qubit 0 into a 1-bit register,
-   all masks are 0 and every outcome decodes to +1 *)
+(* CIRCUIT LEVEL on two qubits (bound in the statement): the law is obtained by EXECUTING the instruction list returned
+   by the measurement model (`exec2`: gate ids interpreted by `sem`, measurements recorded per clbit) on the state vector,
+   for qubit_locations [0;1] and [1;0] and the register at clbits 0..k-1.  Swapping H and SX in the suffix would falsify
+   it.  Every non-zero Gaussian-integer state, every general observable (16 letter pairs incl. the dummy). *)
+Theorem c11_born_circuit_two_qubits : forall sem gh gsx (s : st2) (g locs : list nat),
+  sem gh = gH -> sem gsx = gSX -> st2_nonzero s -> length g = 2 -> valid_letters g ->
+  locs = [0; 1] \/ locs = [1; 0] ->
+  let idx := nonid_positions g in
+  let bits := seq 0 (length (pauli_indices_or_dummy idx)) in
+  let suffix := measurement_suffix gh gsx g idx locs bits in
+  born_circuit (ev_st2 s) 2 (readout sem (fun _ => gId) suffix) bits (law_exec2 sem suffix bits s).
+Proof. exact born_circuit_two_qubits. Qed.
+
+(* ... hence executing the appended suffix and decoding with the recorded mask yields the expectation value of the member
+   placed on the circuit through qubit_locations: no physical hypothesis left (two qubits, pure states, no QPD bits) *)
+Theorem c11_expectation_circuit_two_qubits : forall sem gh gsx (s : st2) (g locs : list nat),
+  sem gh = gH -> sem gsx = gSX -> st2_nonzero s -> length g = 2 -> valid_letters g ->
+  locs = [0; 1] \/ locs = [1; 0] ->
+  let idx := nonid_positions g in
+  let bits := seq 0 (length (pauli_indices_or_dummy idx)) in
+  let suffix := measurement_suffix gh gsx g idx locs bits in
+  forall m mask, member_of g m -> mask_of m idx = Some mask ->
+    Qeq (expect (law_exec2 sem suffix bits s) (decode mask)) (ev_st2 s (embed_letters 2 locs m)).
+Proof. exact expectation_circuit_two_qubits. Qed.
+
+(* COMPOSITION (collection -> lookup -> group -> masks -> _process_outcome -> expectation of an INPUT observable):
+   for every input observable p there is a lookup location (i, j) holding it such that, for every state functional and
+   every outcome law of group i's observable register (words without QPD bits) satisfying the Born/Heisenberg
+   hypothesis for that group's general observable, the mean of the j-th entry of _process_outcome is ev(p).
+   Hypotheses: oracle contract (monitored), real Pauli letters (input precondition), Born (physics). *)
+Theorem c11_collection_expectation : forall obs o cogs lk,
+  collection obs o = Ok (cogs, lk) -> grouping_contract obs o = true ->
+  (forall p, In p obs -> valid_letters (plets p)) ->
+  forall p, In p obs ->
+  exists i j c locs,
+    lookup_find p lk = Some locs /\ In (i, j) locs /\ nth_error cogs i = Some c /\
+    nth_error (cg_members c) j = Some p /\
+    forall (ev : list nat -> Q) (law : list (N * Q)),
+      born ev (plets (cg_general c)) law ->
+      (forall wp, In wp law -> (fst wp < 2 ^ N.of_nat (length (pauli_indices_or_dummy (cg_indices c))))%N) ->
+      Qeq (expect law (fun w => nth j (process_outcome (cg_indices c) (cg_masks c) w) 0%Z)) (ev (plets p)).
+Proof. exact collection_expectation. Qed.
+
+(* REGISTER / WORD LINK: on a circuit without classical bits and registers (circuits with clbits are refused upstream by
+   partition_problem / cut_wires) the register step puts the observable bits at clbits 0 .. k-1, the k low bits of the
+   outcome word that _process_outcome decodes with the masks (c11_process_outcome splits at the same k) *)
+Theorem c11_register_low_bits : forall qc idx,
+  mnc qc = 0 -> mcregs qc = [] ->
+  let k := length (pauli_indices_or_dummy idx) in
+  exists qc', append_measurement_register qc idx = Ok qc' /\
+    find_obs_creg (mcregs qc') = Some (seq 0 k) /\ mnc qc' = k /\ mnq qc' = mnq qc /\ mdata qc' = mdata qc.
+Proof. exact register_low_bits. Qed.
+
+(* the forced dummy measurement: an all-identity general observable measures qubit 0 into a 1-bit register,
+   all masks are 0 and every outcome decodes to +1.  (Stated for whatever members the group holds: with an
+   all-identity general observable the masks ignore the members; for a group built by the collection the members
+   are all-identity themselves by c11_compatible.) *)
 Theorem c11_dummy : forall g members idx masks,
   cog_post_init g members = Ok (idx, masks) ->
   (forall q, nth q (plets g) 0 = 0) ->
   idx = [] /\ pauli_indices_or_dummy idx = [0] /\
-  (forall j m, nth_error members j = Some m -> member_of (plets g) (plets m) ->
+  (forall j m, nth_error members j = Some m ->
      nth j masks 0%N = 0%N /\ forall b, decode (nth j masks 0%N) b = 1%Z).
 Proof.
   intros g members idx masks H Z0.
@@ -341,7 +413,7 @@ Proof.
   { destruct idx as [|q r]; [reflexivity|]. exfalso.
     destruct (proj1 (I q) (or_introl eq_refl)) as [_ Hq]. apply Hq. apply Z0. }
   subst idx. split; [reflexivity|]. split; [reflexivity|].
-  intros j m Hm _. destruct (E j m Hm) as [_ [v [Hv [Mv _]]]].
+  intros j m Hm. destruct (E j m Hm) as [_ [v [Hv [Mv _]]]].
   rewrite (nth_error_nth _ _ _ Hv). unfold mask_of in Mv. simpl in Mv. inversion Mv; subst v.
   split; [reflexivity|]. intros b. apply decode_mask0.
 Qed.
@@ -378,6 +450,42 @@ Example c11_ex_greedy :
   grouping_contract ex_obs (greedy_oracle ex_obs) = true /\
   is_ok (collection ex_obs (greedy_oracle ex_obs)) = true.
 Proof. repeat split; reflexivity. Qed.
+
+(* an all-identity list through the collection: empty pauli_indices, mask 0, the dummy measurement of qubit 0 *)
+Example c11_ex_dummy_collection :
+  collection [mkP 0 [0; 0]; mkP 0 [0; 0]] (greedy_oracle [mkP 0 [0; 0]; mkP 0 [0; 0]])
+  = Ok ([mkCog (mkP 0 [0; 0]) [mkP 0 [0; 0]] [] [0%N]], [(mkP 0 [0; 0], [(0, 0)])]) /\
+  pauli_indices_or_dummy [] = [0] /\
+  measurement_suffix 7 9 [0; 0] [] [0; 1] [0] = [mkI Measure [0] [0]] /\
+  process_outcome [] [0%N] 1%N = [1%Z].
+Proof. repeat split; reflexivity. Qed.
+
+Example c11_ex_cog_refuses_phase :
+  cog_post_init (mkP 0 [1; 0; 2]) [mkP 0 [1; 0; 0]; mkP 1 [0; 0; 2]] = Refused.
+Proof. reflexivity. Qed.
+
+(* register + measurement on a 3-qubit circuit without clbits, qubit_locations [2; 0; 1]; the crash and refusal classes *)
+Example c11_ex_measure :
+  let qc := mkMC 3 0 [] [] in
+  append_measurement_register qc [0; 2] = Ok (mkMC 3 2 [(true, [0; 1])] []) /\
+  append_measurement_circuit 7 9 (mkMC 3 2 [(true, [0; 1])] []) [1; 0; 2] [0; 2] (Some [2; 0; 1])
+    = Ok (mkMC 3 2 [(true, [0; 1])] [mkI (Gate 7) [2] []; mkI Measure [2] [0]; mkI (Gate 9) [1] []; mkI Measure [1] [1]]) /\
+  append_measurement_circuit 7 9 (mkMC 3 2 [(true, [0; 1])] []) [1; 0; 2] [0; 2] (Some [2; 0; 5]) = Crashed /\
+  append_measurement_circuit 7 9 (mkMC 3 2 [(true, [0; 1])] []) [1; 0; 2] [0; 2] (Some [2; 0]) = Refused /\
+  append_measurement_circuit 7 9 (mkMC 2 2 [(true, [0; 1])] []) [1; 0; 2] [0; 2] None = Refused /\
+  append_measurement_circuit 7 9 qc [1; 0; 2] [0; 2] None = Refused /\
+  append_measurement_circuit 7 9 (mkMC 3 1 [(true, [0])] []) [1; 0; 2] [0; 2] None = Refused.
+Proof. repeat split; reflexivity. Qed.
+
+(* outcome 0b1110 for indices [0; 2] (k = 2): observable bits 10, QPD bits 11 (even parity) *)
+Example c11_ex_process_outcome : process_outcome [0; 2] [1; 2; 3]%N 14%N = [1; -1; -1]%Z.
+Proof. reflexivity. Qed.
+
+(* executing the suffix for XY with qubit_locations [1; 0] on psi_ex gives the law used in c11_ex_born_circuit *)
+Example c11_ex_law_exec2 :
+  law_exec2 sem_ex (measurement_suffix 7 9 [1; 2] [0; 1] [1; 0] [0; 1]) [0; 1] psi_ex
+  = law_st2_circ psi_ex [2; 1] [1; 0].
+Proof. vm_compute. reflexivity. Qed.
 
 Example c11_ex_state_nonzero : st2_nonzero psi_ex.
 Proof. reflexivity. Qed.
@@ -422,6 +530,28 @@ Example c11_ex_born_circuit :
     [0; 1] (law_st2_circ psi_ex [2; 1] [1; 0]).
 Proof. exact born_circuit_instance. Qed.
 
+(* APPLYING c11_expectation_circuit to that instance: member "Y on subsystem qubit 1" (letters [I; Y], mask 2), which
+   qubit_locations [1; 0] places on circuit qubit 0: the decoded value is <psi| Y(x)I |psi> = -1/6 *)
+Example c11_ex_expectation_circuit :
+  Qeq (expect (law_st2_circ psi_ex [2; 1] [1; 0]) (decode 2%N)) (ev_st2 psi_ex (embed_letters 2 [1; 0] [0; 2])) /\
+  embed_letters 2 [1; 0] [0; 2] = [2; 0] /\
+  Qeq (ev_st2 psi_ex [2; 0]) (Qmake (-1) 6).
+Proof.
+  split; [|split; [reflexivity|vm_compute; reflexivity]].
+  apply (c11_expectation_circuit sem_ex 7 9 (ev_st2 psi_ex) 2 [1; 2] [1; 0] [0; 1] (law_st2_circ psi_ex [2; 1] [1; 0])).
+  - reflexivity.
+  - reflexivity.
+  - intros [|[|[|q]]]; simpl; lia.
+  - repeat constructor; simpl; intuition lia.
+  - reflexivity.
+  - repeat constructor; simpl; intuition lia.
+  - reflexivity.
+  - exact born_circuit_instance.
+  - intros q [<-|[<-|[]]]; lia.
+  - split; [reflexivity|]. intros [|[|[|q]]]; simpl; auto.
+  - reflexivity.
+Qed.
+
 (* ... and then c11_expectation gives the decoded value of the member "X on qubit 0" (mask 1) *)
 Example c11_ex_expectation :
   Qeq (expect (law_st2 psi_ex [1; 2]) (decode 1%N)) (ev_st2 psi_ex [1; 0]) /\
@@ -453,11 +583,16 @@ Print Assumptions c11_measure_ok.
 Print Assumptions c11_meas_refuses.
 Print Assumptions c11_expectation.
 Print Assumptions c11_expectation_circuit.
+Print Assumptions c11_born_circuit_two_qubits.
+Print Assumptions c11_expectation_circuit_two_qubits.
+Print Assumptions c11_collection_expectation.
+Print Assumptions c11_register_low_bits.
+Print Assumptions c11_mask_is_support.
 Print Assumptions c11_contract_inhabited.
 Print Assumptions c11_collection_reference_oracle.
-Print Assumptions c11_born_two_qubits.
-Print Assumptions c11_expectation_two_qubits.
-Print Assumptions c11_law_two_qubits_normalised.
+Print Assumptions c11_born_two_qubits_abstract_rotations.
+Print Assumptions c11_expectation_two_qubits_abstract_rotations.
+Print Assumptions c11_law_two_qubits_abstract_rotations_normalised.
 Print Assumptions c11_suffix_semantics.
 Print Assumptions c11_process_outcome.
 Print Assumptions c11_dummy.
